@@ -1,3 +1,113 @@
-"""C13, call side (pipeline(...) / run): built later in this round."""
-def run(ctx):
-    return
+"""C13, call side: pipeline(...) / run with a failing user function (TracePipelineFail.tla)."""
+from __future__ import annotations
+
+import contextlib
+import io
+import random
+import tempfile
+
+from .. import build, pcall
+from ..terms import from_json
+from ..tracekit import validate_traces
+from . import c02
+
+EXC = [("ValueError", ["boom"]), ("KeyError", ["k"]), ("ZeroDivisionError", []), ("HarnessError", ["custom", 3]),
+       ("StatefulError", ["stateful"])]
+BLANK = {"e": "", "out": "", "kw": [], "mode": "call", "f": "", "kwargs": [], "cls": "", "args": [], "attributed": False,
+         "repro": ["", []], "repro_loaded": ["", []]}
+
+
+def ev(**kw):
+    e = dict(BLANK)
+    e.update(kw)
+    return e
+
+
+def one(rng: random.Random, k: int) -> dict:
+    td = c02.random_desc(rng, rng.randint(2, 5))
+    pd = pcall.tla_desc_to_py(td)
+    build.LOG.clear()
+    with contextlib.redirect_stdout(io.StringIO()):
+        pl0 = build.make_pipeline(pd)
+    outs = [o for f in pd["funcs"] for o in f["outputs"]]
+    o = rng.choice(outs)
+    combos = sorted(c for c in pl0.arg_combinations(o))
+    cut = list(rng.choice(combos))
+    # which functions run for this call? take them from a dry run, then make one of them fail
+    kw = [[x, pcall.kv(x)] for x in cut]
+    dry = pcall.do_call(pl0, o, kw, "call")
+    called = [e["f"] for e in dry if e["e"] == "call"]
+    if dry[-1]["e"] != "return" or not called:
+        return {}
+    victim = rng.choice(called)
+    cls, args = EXC[k % len(EXC)]
+    for fd in pd["funcs"]:
+        if fd["name"] == victim:
+            fd["fail"] = {"when": "*", "cls": cls, "args": args}
+    build.LOG.clear()
+    with contextlib.redirect_stdout(io.StringIO()):
+        pl = build.make_pipeline(pd)
+    events = [ev(e="begin", out=o, kw=kw, mode="call")]
+    kwargs = {n: from_json(v) for n, v in kw}
+    try:
+        with contextlib.redirect_stdout(io.StringIO()):
+            pl(o, **kwargs) if k % 2 else pl.run(o, kwargs=kwargs)
+        events.append(ev(e="return"))
+    except Exception as ex:  # noqa: BLE001
+        fails = [r for r in build.LOG if r["e"] == "fail"]
+        for r in build.LOG:
+            if r["e"] == "call":
+                fd = build.REG[r["fid"]]
+                kwp = [[p, r["kwargs"][p]] for p in fd["params"]]
+                failed = any(x["fid"] == r["fid"] and x["n"] == r["n"] for x in fails)
+                events.append(ev(e="callfail" if failed else "call", f=r["f"], kwargs=kwp,
+                                 cls=cls if failed else "", args=[str(a) for a in args] if failed else []))
+        notes = list(getattr(ex, "__notes__", []) or [])
+        f0 = fails[0] if fails else None
+        attributed = bool(f0) and any(f0["f"] in n and all(f"{p}=" in n and repr(from_json(v)) in n
+                                                            for p, v in f0["kwargs"].items()) for n in notes)
+
+        def repro(s):
+            try:
+                with contextlib.redirect_stdout(io.StringIO()):
+                    s.reproduce()
+            except Exception as e2:  # noqa: BLE001
+                return [type(e2).__name__, [str(a) for a in e2.args]]
+            return ["<no exception>", []]
+        r1, r2 = ["<no snapshot>", []], ["<no snapshot>", []]
+        try:
+            snap = pl.error_snapshot
+            fsnap = next(pf for pf in pl.functions if pf.__name__ == victim).error_snapshot
+            if snap is not None and fsnap is not None:
+                r1 = repro(fsnap)
+                with tempfile.TemporaryDirectory() as td_:
+                    snap.save_to_file(td_ + "/s.pkl")
+                    from pipefunc._pipefunc import ErrorSnapshot
+                    r2 = repro(ErrorSnapshot.load_from_file(td_ + "/s.pkl"))
+        except Exception as e3:  # noqa: BLE001
+            r1 = [f"<snapshot error {type(e3).__name__}>", []]
+        events.append(ev(e="raise", cls=type(ex).__name__, args=[str(a) for a in ex.args], attributed=attributed,
+                         repro=r1, repro_loaded=r2))
+    return {"desc": td, "ev": events, "victim": victim}
+
+
+def run(ctx) -> None:
+    rng = random.Random(ctx.seed + 13)
+    n = 120 if ctx.tier == "quick" else 1500
+    traces = [t for t in (one(rng, k) for k in range(n)) if t]
+    for t in traces:
+        ctx.case({"callfail": t["desc"], "v": t["victim"], "b": t["ev"][0]},
+                 nontrivial=sum(1 for e in t["ev"] if e["e"] == "call") >= 1)
+    rej = validate_traces(ctx, "TracePipelineFail", traces, "callfail", invariants=["InvDoneOnlyNeeded"], strip=("victim",),
+                          chunk=200)
+    for i, reached in rej.items():
+        t = traces[i]
+        e = t["ev"][reached - 1]
+        clause = "surface"
+        if e["e"] == "raise":
+            f0 = next((x for x in t["ev"] if x["e"] == "callfail"), {"cls": "", "args": []})
+            clause = ("retyped" if e["cls"] != f0["cls"] else "args-changed" if e["args"] != f0["args"] else
+                      "not-attributed" if not e["attributed"] else "snapshot")
+        ctx.violation({"check": "call-fail", "event": e["e"], "clause": clause, "cls": e.get("cls", "")},
+                      f"failing pipeline call not explained at event {reached}: {e}",
+                      {"desc": t["desc"], "events": t["ev"][: reached + 1]})
